@@ -20,10 +20,13 @@ Proof. exact match_tokens_order_independent. Qed.
 Print Assumptions C04_order_independent.
 
 (* any correct sorting algorithm, stable or not, on any arrival order of the candidates returns the same list *)
-(* statement as proved in V2/MatchND.v (restated through its type) *)
-Theorem C04_any_sort_same_result : ltac:(let t := type of (@candidates_sort_unique) in exact t).
+(* statement as proved in V2/MatchND.v (written out; checked against the lemma by exact) *)
+Theorem C04_any_sort_same_result :
+  forall cs cs' r : list mtch,
+         Forall okm cs ->
+         Permutation cs cs' ->
+         Permutation r cs' -> Sorted.StronglySorted (le_of (less true)) r -> r = sort (less true) cs.
 Proof. exact (@candidates_sort_unique). Qed.
-Check C04_any_sort_same_result.
 Print Assumptions C04_any_sort_same_result.
 
 (* the repaired Matches.Less is a strict total order on match records with ordinary confidences *)
@@ -32,24 +35,30 @@ Proof. exact less_true_strict_total. Qed.
 Print Assumptions C04_less_total.
 
 (* for a strict total order two sorted permutations of the same list coincide *)
-(* statement as proved in Base/SortProof.v (restated through its type) *)
-Theorem C04_sorted_permutation_unique : ltac:(let t := type of (@sorted_perm_unique) in exact t).
+(* statement as proved in Base/SortProof.v (written out; checked against the lemma by exact) *)
+Theorem C04_sorted_permutation_unique :
+  forall (A : Type) (lt : A -> A -> bool) (l1 l2 : list A),
+         strict_total lt ->
+         Permutation l1 l2 ->
+         Sorted.StronglySorted (fun x y : A => lt y x = false) l1 ->
+         Sorted.StronglySorted (fun x y : A => lt y x = false) l2 -> l1 = l2.
 Proof. exact (@sorted_perm_unique). Qed.
-Check C04_sorted_permutation_unique.
 Print Assumptions C04_sorted_permutation_unique.
 
 (* REFUTATION for the code as found: the original comparator cannot tell apart two documents with identical text *)
-(* statement as proved in V2/MatchND.v (restated through its type) *)
-Theorem C04_original_less_not_total : ltac:(let t := type of (@less_false_not_total) in exact t).
+(* statement as proved in V2/MatchND.v (written out; checked against the lemma by exact) *)
+Theorem C04_original_less_not_total :
+  less false nd_a nd_b = false /\ less false nd_b nd_a = false /\ nd_a <> nd_b.
 Proof. exact (@less_false_not_total). Qed.
-Check C04_original_less_not_total.
 Print Assumptions C04_original_less_not_total.
 
 (* ... and the Match result then depends on the corpus order (the WTFPL license.txt / v2.txt defect) *)
-(* statement as proved in V2/MatchND.v (restated through its type) *)
-Theorem C04_original_order_dependent : ltac:(let t := type of (@match_tokens_less_false_order_dependent) in exact t).
+(* statement as proved in V2/MatchND.v (written out; checked against the lemma by exact) *)
+Theorem C04_original_order_dependent :
+  w_names (w_run false [w_A; w_B]) = [[65%N]; [66%N]] /\
+         w_names (w_run false [w_B; w_A]) = [[66%N]; [65%N]] /\
+         w_run false [w_A; w_B] <> w_run false [w_B; w_A].
 Proof. exact (@match_tokens_less_false_order_dependent). Qed.
-Check C04_original_order_dependent.
 Print Assumptions C04_original_order_dependent.
 
 (* searchset: matchRanges.Less distinguishes ranges up to (claimed, target start, source start) *)
